@@ -79,7 +79,8 @@ func program(dim int, ax, ay axisG, law bool) string {
 		call = bin2Call(ax, ay)
 	}
 	if law {
-		return "l.map(p->p." + call + ").collectBinning()"
+		// collected twice from the SAME binnings of the parts: collecting must not change what it collects
+		return "let b=l.map(p->p." + call + ").eval(); [b.collectBinning(), b.collectBinning()]"
 	}
 	return "l." + call
 }
@@ -423,16 +424,35 @@ func (h *harness) evalLaw(k *kase, whole *result) verdict {
 		v.problems = append(v.problems, problem{what: "collectBinning over the binnings of the parts failed", expected: whole.String(), got: v.errObs})
 		return v
 	}
-	res, err := extract(k.Dim, got)
-	if err != nil {
-		v.errObs = "malformed result: " + err.Error()
+	pair, ok := got.(*value.List)
+	var both []value.Value
+	if ok {
+		both, err = pair.ToSlice(funcGen.NewEmptyStack[value.Value]())
+	}
+	if !ok || err != nil || len(both) != 2 {
+		v.errObs = fmt.Sprintf("malformed result: not a list of two collected binnings (%v)", err)
 		v.problems = append(v.problems, problem{what: "collectBinning result does not have the shape of a binning result", expected: whole.String(), got: v.errObs})
 		return v
 	}
-	v.res = res
-	if diff := diffResults(whole, res); diff != "" {
-		v.problems = append(v.problems, problem{what: "collectBinning over the binnings of the parts differs from the binning of the whole list: " + diff,
-			expected: whole.String() + " (library's binning of the whole list)", got: res.String()})
+	for i, g := range both {
+		res, err := extract(k.Dim, g)
+		if err != nil {
+			v.errObs = "malformed result: " + err.Error()
+			v.problems = append(v.problems, problem{what: "collectBinning result does not have the shape of a binning result", expected: whole.String(), got: v.errObs})
+			return v
+		}
+		if i == 0 {
+			v.res = res
+		}
+		if diff := diffResults(whole, res); diff != "" {
+			what := "collectBinning over the binnings of the parts differs from the binning of the whole list: "
+			if i == 1 {
+				what = "collectBinning over the SAME binnings of the parts a second time differs from the binning of the whole list (collecting changed the parts): "
+			}
+			v.problems = append(v.problems, problem{what: what + diff,
+				expected: whole.String() + " (library's binning of the whole list)", got: res.String()})
+			return v
+		}
 	}
 	return v
 }
@@ -1008,7 +1028,7 @@ func main() {
 	bex.Main(&bex.Check{
 		ID:    "C20",
 		Level: "exploration",
-		Rule:  "every case = one program text (l.binning(start,size,count,r->r.x,r->r.w), l.binning2d(…), or l.map(p->p.binning…(…)).collectBinning()) generated by value.New() and evaluated on one argument list. Whole-list cases are compared with a reference histogram (bin of a record = the interval of the property's definition that contains x, decided by comparisons on exactly representable edges), with the exact sum of the weights, and bin by bin with the interval description (presence and exact value of min/max, shape and numbers of str); additivity cases compare collectBinning over the binnings of the parts with the library's binning of the whole list (values and descriptions). distinct_nontrivial = distinct (space, grid, record list) whose reference histogram has a non-zero bin (whole-list cases) resp. that were split into at least two non-empty parts (additivity cases; the splittings of one list are not counted separately)",
+		Rule:  "every case = one program text (l.binning(start,size,count,r->r.x,r->r.w), l.binning2d(…), or let b=l.map(p->p.binning…(…)).eval(); [b.collectBinning(), b.collectBinning()]) generated by value.New() and evaluated on one argument list. Whole-list cases are compared with a reference histogram (bin of a record = the interval of the property's definition that contains x, decided by comparisons on exactly representable edges), with the exact sum of the weights, and bin by bin with the interval description (presence and exact value of min/max, shape and numbers of str); additivity cases compare collectBinning over the binnings of the parts — collected twice from the same part binnings — with the library's binning of the whole list (values and descriptions). distinct_nontrivial = distinct (space, grid, record list) whose reference histogram has a non-zero bin (whole-list cases) resp. that were split into at least two non-empty parts (additivity cases; the splittings of one list are not counted separately)",
 		Assumptions: []string{
 			"grid values (start, size) are dyadic with size a power of two, so every bin edge, x-start and the quotient are exact in float64 (checked with big.Rat when the reference axis is built); weights 1, 0.5, -2 make every sum exact",
 			"records whose x is one ulp from an edge are only judged when the library's float computation of (x-start)/size is exact (else counted in unspecified_excluded); NaN/Inf coordinates, size <= 0, negative or fractional count are outside the property",
